@@ -466,6 +466,92 @@ def _hashable_args(spec, f):
     yield True
 
 
+def map_case_deferred(cfg, chooser):
+    """cached map through the deferred executor under one schedule (parallel code path, cache used inside the tasks)"""
+    from .. import explore, sched
+    _vclock()
+    spec = c03.PIPES[cfg["pipe"]]
+    inputs = gen_map.make_inputs(spec, "list")
+    for k, v in inputs.items():
+        if isinstance(v, list) and len(v) >= 2:
+            inputs[k] = [v[0]] * len(v)
+    exp, calls = gen_map.ref_map(spec, inputs)
+    kw = {"shared": False} if cfg["cache"] in ("lru", "hybrid") else {}
+    with warnings.catch_warnings():
+        warnings.simplefilter("ignore")
+        p = gen_map.build(spec, cache=True, cache_type=cfg["cache"], cache_kwargs=kw)
+    s = sched.Sched(chooser or explore.Chooser())
+    terms.LOG.clear()
+    try:
+        with contextlib.redirect_stdout(io.StringIO()), warnings.catch_warnings():
+            warnings.simplefilter("ignore")
+            r = p.map(dict(inputs), internal_shapes=gen_map.internal_shapes_arg(spec), parallel=True, executor=sched.DeferredExecutor(s), storage="dict")
+    except sched.Hang as e:
+        return [({"kind": "hang", "part": "map-deferred", "cache": cfg["cache"]}, f"cached parallel map of {cfg['pipe']}: {e}")]
+    except Exception as e:  # noqa: BLE001
+        return [(findings.exc_sig(e, part="map-deferred", cache=cfg["cache"]), f"cached parallel map of {cfg['pipe']} raised {type(e).__name__}: {str(e)[:120]}")]
+    out = []
+    for f in spec["funcs"]:
+        for o in f["outs"]:
+            if terms.T(r[o].output) != terms.T(exp[o]):
+                out.append(({"kind": "map-value-mismatch", "part": "map-deferred", "cache": cfg["cache"]}, f"cached parallel map {cfg['pipe']}: {o} = {terms.T(r[o].output)[:100]}, uncached {terms.T(exp[o])[:100]}"))
+    log = list(terms.LOG)
+    for f in spec["funcs"]:
+        got = [a for n, a in log if n == f["name"]]
+        if not set(got) <= set(calls[f["name"]]) or set(got) != set(calls[f["name"]]):
+            out.append(({"kind": "map-call-set", "part": "map-deferred", "cache": cfg["cache"]}, f"{cfg['pipe']}: {f['name']} called with {sorted(set(got))}, reference {sorted(set(calls[f['name']]))}"))
+        if len(got) > len(calls[f["name"]]):
+            out.append(({"kind": "map-extra-calls", "part": "map-deferred", "cache": cfg["cache"]}, f"{cfg['pipe']}: {f['name']} called {len(got)} times, uncached needs {len(calls[f['name']])}"))
+    return out
+
+
+def map_case_shared_interleaved(cfg, chooser):
+    """cached parallel map with a SHARED cache: the element tasks of a generation run as logical threads that interleave
+    at every manager-proxy operation of the cache (fake Manager); repeated input values make them hit the same entry"""
+    import pipefunc.cache as pcache
+
+    from .. import explore, threads
+    _vclock()
+    pcache.Manager = threads.FakeManager
+    spec = c03.PIPES[cfg["pipe"]]
+    inputs = gen_map.make_inputs(spec, "list")
+    for k, v in inputs.items():
+        if isinstance(v, list) and len(v) >= 2:
+            inputs[k] = [v[0]] * len(v)
+    exp, calls = gen_map.ref_map(spec, inputs)
+    kw = {"shared": True, "allow_cloudpickle": False}
+    if cfg.get("max_size"):
+        kw["max_size"] = cfg["max_size"]
+    with warnings.catch_warnings():
+        warnings.simplefilter("ignore")
+        p = gen_map.build(spec, cache=True, cache_type=cfg["cache"], cache_kwargs=kw)
+    out = []
+    rounds = 2 if cfg.get("warm") else 1
+    for rnd in range(rounds):
+        ex = threads.BatonExecutor(chooser or explore.Chooser())
+        terms.LOG.clear()
+        try:
+            with contextlib.redirect_stdout(io.StringIO()), warnings.catch_warnings():
+                warnings.simplefilter("ignore")
+                if rnd == 0 and rounds == 2:
+                    r = p.map(dict(inputs), internal_shapes=gen_map.internal_shapes_arg(spec), parallel=False, storage="dict")  # warm the cache
+                else:
+                    r = p.map(dict(inputs), internal_shapes=gen_map.internal_shapes_arg(spec), parallel=True, executor=ex, storage="dict")
+        except Exception as e:  # noqa: BLE001
+            return [(findings.exc_sig(e, part="map-shared-interleaved", cache=cfg["cache"], max_size_1=cfg.get("max_size") == 1),
+                     f"cached parallel map ({cfg}) raised {type(e).__name__}: {str(e)[:120]} (the uncached map succeeds)")]
+        if any(st != "ok" for st in ex.status):
+            out.append(({"kind": [st for st in ex.status if st != "ok"][0], "part": "map-shared-interleaved", "cache": cfg["cache"]}, f"cached parallel map ({cfg}): scheduler status {ex.status}"))
+        for f in spec["funcs"]:
+            for o in f["outs"]:
+                if terms.T(r[o].output) != terms.T(exp[o]):
+                    none_result = "None" in terms.T(r[o].output)
+                    out.append(({"kind": "map-value-mismatch", "part": "map-shared-interleaved", "cache": cfg["cache"], "none_instead_of_value": none_result,
+                                 "max_size_1": cfg.get("max_size") == 1},
+                                f"cached parallel map ({cfg}): {o} = {terms.T(r[o].output)[:100]}, uncached {terms.T(exp[o])[:100]}"))
+    return out
+
+
 # ------------------------------------------------------------------------------------------------
 N3_FAMILY = [
     {"funcs": [{"name": "f0", "params": ["x"], "outs": ["o0"]}, {"name": "f1", "params": ["o0"], "outs": ["o1"]}, {"name": "f2", "params": ["o1", "x"], "outs": ["o2"]}]},
@@ -522,6 +608,13 @@ def plan(tier, seed):
     for pipe in c03.PIPES:
         for ct in ("simple", "lru", "hybrid", "disk"):
             units.append(("map-cached-vs-uncached", ("map", {"pipe": pipe, "cache": ct})))
+        for ct in ("simple", "lru", "hybrid"):
+            units.append(("map-cached-deferred-executor-deviations<=1", ("mapdfs", {"pipe": pipe, "cache": ct}, 1 if not thorough else 2)))
+        if thorough or pipe in ("two-maps-reduce", "tuple-zip"):
+            for ct in ("lru", "hybrid"):
+                for warm in (False, True):
+                    for ms in (None, 1):
+                        units.append(("map-shared-cache-task-interleavings", ("mapthr", {"pipe": pipe, "cache": ct, "warm": warm, "max_size": ms}, 1 if not thorough else 2)))
     by = {}
     for st, u in units:
         by.setdefault(st, []).append((st, u))
@@ -540,6 +633,34 @@ def run_unit(unit):
         acc.stratum("bfs-" + cfg["cache"])
         if all(cfg["cached"]) and cfg["cache"] == "simple" and len(cfg["spec"]["funcs"]) == 3:
             acc.sample({"spec": cfg["spec"], "cached": cfg["cached"], "cache": cfg["cache"], "depth": depth, "step_alphabet": n})
+    elif unit[0] == "mapthr":
+        from .. import explore
+        _, cfg, bound = unit
+        n = 0
+        for ch, vs in explore.choice_dfs(lambda c: map_case_shared_interleaved(cfg, c), bound, 3000):
+            n += 1
+            acc.transitions += len(ch.trace)
+            acc.traces += 1
+            for sig, text in vs:
+                acc.violation(sig, {"cfg": cfg, "mapthr": True, "choices": ch.choices}, text + f" under schedule {ch.choices}")
+        acc.case(hash(("mapthr", str(cfg))), n=n)
+        acc.states += n
+        acc.stratum("map-shared-interleavings", n)
+        if n >= 3000:
+            acc.notes["mapthr-execution-cap-hit"] += 1
+    elif unit[0] == "mapdfs":
+        from .. import explore
+        _, cfg, bound = unit
+        n = 0
+        for ch, vs in explore.choice_dfs(lambda c: map_case_deferred(cfg, c), bound):
+            n += 1
+            acc.transitions += len(ch.trace)
+            acc.traces += 1
+            for sig, text in vs:
+                acc.violation(sig, {"cfg": cfg, "mapdfs": True, "choices": ch.choices}, text + f" under schedule {ch.choices}")
+        acc.case(hash(("mapdfs", str(cfg))), n=n)
+        acc.states += n
+        acc.stratum("map-deferred-" + cfg["cache"], n)
     else:
         _, cfg = unit
         acc.case(hash(str(cfg)))
@@ -553,6 +674,12 @@ def run_unit(unit):
 
 
 def replay(art):
+    if art.get("mapthr"):
+        from .. import explore
+        return [s for s, _ in map_case_shared_interleaved(art["cfg"], explore.Chooser(art["choices"]))]
+    if art.get("mapdfs"):
+        from .. import explore
+        return [s for s, _ in map_case_deferred(art["cfg"], explore.Chooser(art["choices"]))]
     if art.get("map"):
         return [s for s, _ in map_case(art["cfg"])]
     hist = [[tuple(x) if isinstance(x, list) and s[0] == "bound" and i == 1 else x for i, x in enumerate(s)] for s in art["hist"]]
